@@ -122,7 +122,8 @@ def bd_problem(rng):
             a = [[rng.randint(-2, 2) for _ in range(N)] for _ in range(N)]
             terms[",".join(map(str, o))] = [[a[i][j] + a[j][i] for j in range(N)] for i in range(N)]
     return dict(npar=npar, sizes=[n0, n1], E=E, terms=terms, hermitian=rng.random() < 0.6, zero_block=zero_block,
-                unsplit=rng.random() < 0.35, solver1=rng.random() < 0.3)
+                unsplit=rng.random() < 0.35, solver1=rng.random() < 0.3,
+                implicit=(not zero_block) and rng.random() < 0.25, sparse=rng.random() < 0.5)
 
 
 def in_cones(n, cones):
@@ -175,13 +176,20 @@ def bd_build(prob, log, forbid=None, scale_outside=None):
         if forbid is not None and not in_cones(n, forbid):
             raise AssertionError("Hamiltonian term %s touched outside the cones <= %s" % (n, forbid))
         if not any(n):
-            return np.diag(E)
+            return wrap(np.diag(E))
         if n in terms:
             t = terms[n]
             if scale_outside is not None and not in_cones(n, scale_outside[0]):
                 t = t * scale_outside[1]
-            return t
+            return wrap(t)
         return zero
+
+    def wrap(m):
+        if prob.get("implicit") and prob.get("sparse"):
+            import scipy.sparse as sp
+
+            return sp.csr_array(m)
+        return m
 
     import warnings
     from pymablock.block_diagonalization import solve_sylvester_diagonal
@@ -194,6 +202,12 @@ def bd_build(prob, log, forbid=None, scale_outside=None):
         kw["solve_sylvester"] = lambda Y: base(Y, (0, 1))
     with warnings.catch_warnings():
         warnings.simplefilter("ignore")
+        if prob.get("implicit"):
+            # implicit mode: only the eigenvectors of the first block are given (default direct solver, real h_0);
+            # the Hamiltonian is one lazily defined series of full matrices
+            H = BlockSeries(eval=ev_full, shape=(), n_infinite=npar, name="H")
+            out = block_diagonalize(H, subspace_eigenvectors=[np.eye(n0 + n1)[:, :n0]])
+            return out, H
         if prob.get("unsplit"):
             H = BlockSeries(eval=ev_full, shape=(), n_infinite=npar, name="H")
             out = block_diagonalize(H, subspace_indices=[0] * n0 + [1] * n1, **kw)
@@ -218,7 +232,22 @@ def bd_check(prob, reqs):
             return [val(x) for x in v.filled(zero).reshape(-1)]
         if isinstance(v, np.ndarray) and v.dtype == object:
             return [val(x) for x in v.reshape(-1)]
+        if not isinstance(v, np.ndarray) and hasattr(v, "matvec"):
+            v = v @ np.eye(v.shape[1])  # a LinearOperator (implicit block)
+        if hasattr(v, "toarray"):
+            v = v.toarray()
         return np.array(v).tolist()
+
+    def same(x, y):
+        if isinstance(x, str) or isinstance(y, str):
+            return x == y
+        if isinstance(x, list) and isinstance(y, list):
+            return len(x) == len(y) and all(same(p, q) for p, q in zip(x, y))
+        if isinstance(x, list) or isinstance(y, list):
+            return False
+        # exact for the explicit problems (integer data, exact float arithmetic); the implicit mode goes through
+        # a sparse LU solve
+        return x == y or (bool(prob.get("implicit")) and abs(x - y) <= 1e-9 * (1 + abs(x) + abs(y)))
 
     reqs = [(r[0], list(r[1])) for r in reqs]
     log = []
@@ -251,7 +280,7 @@ def bd_check(prob, reqs):
             return "request %s: %s" % ((s, ix), e)
         out3, _ = bd_build(prob, [], scale_outside=(cones, 7.0))
         v3 = val(out3[s][item])
-        if v2 != values[k] or v3 != values[k]:
+        if not same(v2, values[k]) or not same(v3, values[k]):
             return "value of %s changed when Hamiltonian terms outside the cone were altered" % ((s, ix),)
     return None
 
@@ -317,7 +346,10 @@ def sq_problem(rng):
     has_b = rng.random() < 0.5
     has_c = kind == "scalar" and rng.random() < 0.3
     wa, wb, wc = rng.sample([2, 3, 5, 7], 3)
-    delta = rng.choice(["1/2", "3", "4/3"])
+    # the detuning is a non-integer rational: no integer combination of the (integer, pairwise different) mode
+    # energies equals it, so no pair of coupled levels is degenerate (a vanishing energy denominator makes the
+    # second-quantised solver return nan - an ill-posed input, not a question of causality)
+    delta = rng.choice(["1/2", "4/3", "5/7", "7/3"])
     pool = [t for t in (SQ_TERMS_SCALAR if kind == "scalar" else SQ_TERMS_MATRIX)
             if ("b" not in t.replace("nb", "b") or has_b) and ("nc" not in t or has_c)]
     if not has_b:
@@ -414,6 +446,21 @@ def sq_is_zero(d):
         return False
 
 
+def sq_ill_posed(v):
+    """a value containing nan / zoo: some energy denominator vanished - the input is outside the valid class"""
+    import sympy
+    from pymablock.series import one, zero
+
+    if v is zero or v is one:
+        return False
+    items = list(v) if isinstance(v, sympy.MatrixBase) else [v]
+    for x in items:
+        x = x.as_expr() if hasattr(x, "as_expr") else sympy.sympify(x)
+        if x.has(sympy.nan, sympy.zoo, sympy.oo, -sympy.oo):
+            return True
+    return False
+
+
 def sq_check(prob, reqs):
     log = []
     zeros = (0,) * prob["npar"]
@@ -443,6 +490,8 @@ def sq_check(prob, reqs):
             return "request %s: %s" % ((s, ix), e)
         out3, _ = sq_build(prob, [], scale_outside=([n], 7))
         v3 = out3[s][tuple(ix)]
+        if sq_ill_posed(values[k]) or sq_ill_posed(v2) or sq_ill_posed(v3):
+            continue  # degenerate coupled levels (nan): no statement about values
         if not sq_same(v2, values[k]) or not sq_same(v3, values[k]):
             return "value of %s changed when Hamiltonian terms outside the cone were altered" % ((s, ix),)
     return None
